@@ -274,6 +274,18 @@ def corpus():
           mkrow(o(datetime.date(2022, 6, 15)), "Sell", None, sh=D(30), aps=D(12), com=D(0), cur="USD", rate=D(13, 1))]
     c.append((cc, o(datetime.date(2022, 3, 10)), False))
     c.append((cc, o(datetime.date(2022, 3, 10)), True))
+    # regression cases of the fixed zero-cell panic (Proofs/C10Examples.v wit5, wit6; known-findings.d/C10.json
+    # "fixed"): a sale with the forced cell 0!; the full history computes a superficial loss from the spouse's
+    # purchase (ignored: forced), the re-run only sees a tiny later purchase and computes a loss that rounds to
+    # zero effective cents - it panicked there (util/math.rs:93) until the fix of C05 eff-cent-zero
+    for sell_px, dust in ((D(9), D(1, 12)), (D(95, 1), D(1, 10))):
+        zc = [mkrow(b, "Buy", None, sh=D(10), aps=D(10), com=None),
+              mkrow(b + 100, "Buy", "Spouse", sh=D(5), aps=D(10), com=None),
+              mkrow(b + 101, "Sell", "Spouse", sh=D(5), aps=D(12), com=None),
+              mkrow(b + 110, "Sell", None, sh=D(1), aps=sell_px, com=None, sfl=(D(0), True)),
+              mkrow(b + 115, "Buy", None, sh=dust, aps=D(10), com=None)]
+        c.append((zc, b + 105, False))
+        c.append((zc, b + 109, False))
     return c
 
 
